@@ -1,12 +1,136 @@
-import RoaringModel.Ops
-import RoaringModel.Spec
+import RoaringModel.Lemmas.BitmapOps
 /-!
-# C02 — 32-bit set algebra is exact (property theorems)
+# C02 — 32-bit set algebra is exactly union / intersection / difference / symmetric difference
+
+Statement shape (DESIGN §8): for well-formed operands the result is well-formed and its element list
+*is* the SPEC operation on the operands' element lists (`Spec.sOr / sAnd / sSub / sXor`, whose membership
+laws are `Spec.mem_sOr` … in `Lemmas/AlgebraSpec.lean`).
+
+Proved here, for all well-formed `a b`:
+* `&a | &b`, `&a & &b`, `&a - &b`, `&a ^ &b` (the four `Pairs` loops of ops.rs), `&a - b` (delegates),
+* `a ^= b`, `a ^= &b` and their wrappers `a ^ b`, `a ^ &b`, `&a ^ b` (the other two `Pairs` loops),
+down to the per-kind store dispatch, the scalar merges, the in-place `retain` forms and
+`ensure_correct_store`.
+
+Every theorem is `_partial` for one reason only: the bitset-level kernel facts (`op_bitmaps`, the per-bit
+array folds, `to_array_store` / `to_bitmap_store`) are taken as the *named hypothesis* `K : BKernel`
+(`Lemmas/StoreOps.lean`); they are proved by the core proof library in parallel and discharge `K`
+mechanically once merged.
+
+GAPS (not yet proved, listed in bin/propcfg/C02.py): the binary-search based loops `a |= b`, `a |= &b`,
+`a &= b`, `a &= &b`, `a -= &b` (and the wrappers that delegate to them) are not yet connected to the
+`Pairs` form; `C02_forms_agree` is therefore stated only for the proved forms.
+"Borrowed operands are left unchanged" is not a theorem of a functional model (DESIGN §8 C02).
 -/
 namespace Roaring.C02
-open Roaring
+open Roaring Roaring.Bitmap
 
-/-- the wrappers of ops.rs delegate: `a | b` is `a |= b`. -/
-theorem C02_or_oo_eq_ao (a b : Bitmap) : Bitmap.orOO a b = Bitmap.orAO a b := rfl
+/-- The full-strength statement for one operator form `op` against the SPEC operation `sop`. -/
+def Exact (op : Bitmap → Bitmap → Bitmap) (sop : List Nat → List Nat → List Nat) : Prop :=
+  ∀ a b : Bitmap, a.WF → b.WF → (op a b).WF ∧ elems (op a b) = sop (elems a) (elems b)
+
+theorem C02_or_rr_partial (K : BKernel) : Exact orRR Spec.sOr := by
+  intro a b ha hb
+  rw [orRR_eq]
+  exact pairsOp_elems_eq K (pairSpec_or K) a b ha hb _
+    (Spec.sorted_sOr _ _ (sorted_elems K a ha) (sorted_elems K b hb)) (fun y => Spec.mem_sOr _ _ y)
+
+theorem C02_and_rr_partial (K : BKernel) : Exact andRR Spec.sAnd := by
+  intro a b ha hb
+  rw [andRR_eq]
+  exact pairsOp_elems_eq K (pairSpec_and K) a b ha hb _
+    (Spec.sorted_sAnd _ _ (sorted_elems K a ha) (sorted_elems K b hb))
+    (fun y => Spec.mem_sAnd _ _ (sorted_elems K a ha) (sorted_elems K b hb) y)
+
+theorem C02_sub_rr_partial (K : BKernel) : Exact subRR Spec.sSub := by
+  intro a b ha hb
+  rw [subRR_eq]
+  exact pairsOp_elems_eq K (pairSpec_sub K) a b ha hb _
+    (Spec.sorted_sSub _ _ (sorted_elems K a ha) (sorted_elems K b hb))
+    (fun y => Spec.mem_sSub _ _ (sorted_elems K a ha) (sorted_elems K b hb) y)
+
+/-- `&a - b` delegates to `&a - &b` (ops.rs:295). -/
+theorem C02_sub_ro_partial (K : BKernel) : Exact subRO Spec.sSub := C02_sub_rr_partial K
+
+theorem xorWith_exact (K : BKernel) (f : Container → Container → Container) (op : Store → Store → Store)
+    (hf : ∀ l r : Container, f l r = Container.ensureCorrectStore { key := l.key, store := op l.store r.store })
+    (hop : Store.OpSpec Store.PXor op) : Exact (xorWith f) Spec.sXor := by
+  intro a b ha hb
+  rw [xorWith_eq]
+  exact pairsOp_elems_eq K (pairSpec_xor K f op hf hop) a b ha hb _
+    (Spec.sorted_sXor _ _ (sorted_elems K a ha) (sorted_elems K b hb))
+    (fun y => Spec.mem_sXor _ _ (sorted_elems K a ha) (sorted_elems K b hb) y)
+
+theorem C02_xor_rr_partial (K : BKernel) : Exact xorRR Spec.sXor :=
+  xorWith_exact K _ _ (fun _ _ => rfl) (Store.xorRef_spec K)
+theorem C02_xor_ao_partial (K : BKernel) : Exact xorAO Spec.sXor :=
+  xorWith_exact K _ _ (fun _ _ => rfl) (Store.xorAssignOwned_spec K)
+theorem C02_xor_ar_partial (K : BKernel) : Exact xorAR Spec.sXor :=
+  xorWith_exact K _ _ (fun _ _ => rfl) (Store.xorAssignRef_spec K)
+/-- `a ^ b` is `a ^= b`, `a ^ &b` is `a ^= &b` (ops.rs:351-369). -/
+theorem C02_xor_oo_partial (K : BKernel) : Exact xorOO Spec.sXor := C02_xor_ao_partial K
+theorem C02_xor_or_partial (K : BKernel) : Exact xorOR Spec.sXor := C02_xor_ar_partial K
+
+/-- symmetric difference is symmetric (needed because `&a ^ b` is computed as `b ^= &a`) -/
+theorem sXor_comm (l r : List Nat) (hl : Sorted l) (hr : Sorted r) : Spec.sXor l r = Spec.sXor r l := by
+  apply sorted_ext_local _ _ (Spec.sorted_sXor l r hl hr) (Spec.sorted_sXor r l hr hl)
+  intro x; rw [Spec.mem_sXor l r hl hr, Spec.mem_sXor r l hr hl]
+  constructor <;> (intro h; rcases h with h | h) <;> simp [h.1, h.2]
+
+/-- `&a ^ b` = `BitXor::bitxor(rhs, self)` (ops.rs:371): the operands are exchanged. -/
+theorem C02_xor_ro_partial (K : BKernel) : Exact xorRO Spec.sXor := by
+  intro a b ha hb
+  have := C02_xor_ar_partial K b a hb ha
+  exact ⟨this.1, by rw [sXor_comm _ _ (sorted_elems K a ha) (sorted_elems K b hb)]; exact this.2⟩
+
+/-- All six forms of `^` return structurally equal values (canonical form is not even needed: the same
+    element list and well-formedness pin the value down only up to C04's canonical-form theorem, so the
+    agreement is stated on the element lists). -/
+theorem C02_xor_forms_agree_partial (K : BKernel) (a b : Bitmap) (ha : a.WF) (hb : b.WF) (fm : Form) :
+    elems (binop .xor fm a b) = elems (xorRR a b) := by
+  have h0 := (C02_xor_rr_partial K a b ha hb).2
+  cases fm
+  · exact (C02_xor_oo_partial K a b ha hb).2.trans h0.symm
+  · exact (C02_xor_or_partial K a b ha hb).2.trans h0.symm
+  · exact (C02_xor_ro_partial K a b ha hb).2.trans h0.symm
+  · rfl
+  · exact (C02_xor_ao_partial K a b ha hb).2.trans h0.symm
+  · exact (C02_xor_ar_partial K a b ha hb).2.trans h0.symm
+
+/-- the wrappers of ops.rs delegate: `a | b` is `a |= b`, `a | &b` is `a |= &b`, `&a | b` is `b |= &a`;
+    likewise for `&`; every owned/borrowed form of `-` is `a -= &b` except `&a - &b` / `&a - b`. -/
+theorem C02_wrappers (a b : Bitmap) :
+    orOO a b = orAO a b ∧ orOR a b = orAR a b ∧ orRO a b = orAR b a ∧
+    andOO a b = andAO a b ∧ andOR a b = andAR a b ∧ andRO a b = andAR b a ∧
+    subOO a b = subAR a b ∧ subOR a b = subAR a b ∧ subAO a b = subAR a b ∧ subRO a b = subRR a b :=
+  ⟨rfl, rfl, rfl, rfl, rfl, rfl, rfl, rfl, rfl, rfl⟩
+
+/-! Non-vacuity of the `WF` hypotheses: a two-chunk value (keys 0 and 7) is well-formed, and the
+    operations are exercised on it by evaluation. -/
+def exA : Bitmap := [⟨0, .array [1, 5, 65535]⟩, ⟨7, .array [0, 2]⟩]
+def exB : Bitmap := [⟨0, .array [5, 6]⟩, ⟨3, .array [9]⟩]
+
+example : exA.WF ∧ exB.WF := by
+  refine ⟨⟨by decide, ?_⟩, ⟨by decide, ?_⟩⟩ <;>
+  · intro c hc
+    simp only [exA, exB, List.mem_cons, List.not_mem_nil, or_false] at hc
+    rcases hc with rfl | rfl <;>
+      exact ⟨by decide, ⟨⟨by simp [Sorted], by decide⟩, by decide, by decide⟩⟩
+
+/-- … and a value with one array chunk and one bitset chunk (4160 values) -/
+def exBits : BStore := { len := 4160, bits := List.replicate 65 wMax ++ List.replicate 959 0 }
+def exC : Bitmap := [⟨0, .array [1, 5, 65535]⟩, ⟨7, .bitmap exBits⟩]
+
+example : exC.WF := by
+  refine ⟨by decide, ?_⟩
+  intro c hc
+  simp only [exC, List.mem_cons, List.not_mem_nil, or_false] at hc
+  rcases hc with rfl | rfl
+  · exact ⟨by decide, ⟨⟨by simp [Sorted], by decide⟩, by decide, by decide⟩⟩
+  · exact ⟨by decide, ⟨by decide +kernel, by decide +kernel, by decide +kernel⟩, by decide⟩
+
+example : elems (orRR exA exB) = [1, 5, 6, 65535, 196617, 458752, 458754]
+    ∧ elems (andRR exA exB) = [5] ∧ elems (subRR exA exB) = [1, 65535, 458752, 458754]
+    ∧ elems (xorAO exA exB) = [1, 6, 65535, 196617, 458752, 458754] := by decide +kernel
 
 end Roaring.C02
